@@ -23,19 +23,21 @@ struct Case {
     std::vector<uint64_t> ext;
     std::string construct;   // "extents" (row-major only) | "convert" | "pack"
     std::vector<Write> writes;
+    unsigned slack = 0;   // "pack" only: the caller's array is longer than the documented length (0: exact, 1: +1, 2: +len/2+1, 3: four times)
     json to_json() const
     {
         json w = json::array();
         for (auto & x : writes) {
             w.push_back(json{{"coord", x.coord}, {"bits", x.bits}});
         }
-        return json{{"extents", ext}, {"construct", construct}, {"writes", w}};
+        return json{{"extents", ext}, {"construct", construct}, {"writes", w}, {"slack", slack}};
     }
     static Case from_json(const json & j)
     {
         Case c;
         c.ext = j.at("extents").get<std::vector<uint64_t>>();
         c.construct = j.at("construct");
+        c.slack = j.value("slack", 0u);
         for (auto & x : j.at("writes")) {
             c.writes.push_back({x.at("coord").get<std::vector<uint64_t>>(), x.at("bits").get<std::vector<uint64_t>>()});
         }
@@ -134,6 +136,15 @@ struct Arr {
 
     static uint64_t alloc_side(const std::vector<uint64_t> & ext) { return uint64_t(ref::round_pow2(*std::max_element(ext.begin(), ext.end()))); }
 
+    static bool f_len_mismatch(const covfie::field<B> & f, uint64_t given) { return f.backend().get_backend().get_configuration()[0] != given; }
+    static uint64_t ref_len(const std::vector<uint64_t> & ext)
+    {
+        uint64_t len = 1;
+        for (size_t k = 0; k < N; ++k) {
+            len *= alloc_side(ext);
+        }
+        return len;
+    }
     static Verdict run(const Case & c)
     {
         typename B::configuration_t e;
@@ -165,11 +176,23 @@ struct Arr {
                     len *= alloc_side(c.ext);
                 }
             }
-            fo.emplace(pack(e, typename A::owning_data_t(len)));
+            // a caller may hand over a longer array than that; the layout of the in-range cells does not depend on it
+            const uint64_t given = c.slack == 0 ? len : c.slack == 1 ? len + 1 : (c.slack == 2 || len * M * sizeof(T) > (uint64_t(8) << 20)) ? len + len / 2 + 1 : 4 * len;
+            fo.emplace(pack(e, typename A::owning_data_t(given)));
+            if (f_len_mismatch(*fo, given)) {
+                return std::string("the field does not keep the array it was constructed with (length ") + std::to_string(given) + ")";
+            }
+            if (c.slack) {
+                label("parameter pack with an array longer than the documented storage length");
+            }
         }
         covfie::field<B> & f = *fo;
         typename covfie::field<B>::view_t v(f);
-        const uint64_t allocated = f.backend().get_backend().get_configuration()[0];
+        uint64_t allocated = f.backend().get_backend().get_configuration()[0];
+        if (c.construct == "pack" && c.slack) {
+            // positions must stay below the documented length, whatever the caller allocated
+            allocated = L == Lay::strided ? cells : ref_len(c.ext);
+        }
 
         // ---- (c) positions over identity<size1>: distinct and below the allocated length
         {
@@ -274,7 +297,7 @@ struct Arr {
         }
         bool nontriv = !all_ones && !(L != Lay::strided && cube_pow2);
         Hasher h;
-        h.vec(c.ext).str(c.construct);
+        h.vec(c.ext).str(c.construct).pod(c.construct == "pack" ? c.slack : 0u);
         for (auto & w : c.writes) {
             h.vec(w.coord).vec(w.bits);
         }
@@ -303,7 +326,7 @@ struct Arr {
         uint64_t n = 0;
         while (true) {
             // two fixed writes so that the exhaustive part also exercises overwrite + neighbours
-            Case c{e, ctors[n % 2], {}};
+            Case c{e, ctors[n % 2], {}, unsigned((n / 2) % 4)};
             std::vector<uint64_t> last(N);
             for (size_t k = 0; k < N; ++k) {
                 last[k] = e[k] - 1;
@@ -339,7 +362,7 @@ struct Arr {
             }
         }
         auto g = rc::gen::mapcat(gen_extents(N, max_side, uint64_t(1) << 18), [ctors](std::vector<uint64_t> ext) {
-            return rc::gen::map(rc::gen::pair(rc::gen::elementOf(ctors), gen_writes(ext, M, sizeof(T) == 8)), [ext](std::pair<std::string, std::vector<Write>> p) { return Case{ext, p.first, p.second}; });
+            return rc::gen::map(rc::gen::tuple(rc::gen::elementOf(ctors), gen_writes(ext, M, sizeof(T) == 8), in_range<unsigned>(0, 3)), [ext](std::tuple<std::string, std::vector<Write>, unsigned> p) { return Case{ext, std::get<0>(p), std::get<1>(p), std::get<2>(p)}; });
         });
         rc_campaign<Case>(name(), tier(60, 1500), 100, g, run);
     }
